@@ -50,7 +50,7 @@ PROPS = {
               "matrix Transform laws are stated for affine matrices (the documented domain of Transform); Matrix3 as a 3-D transform: all matrices",
               "ulps_eq!(scale, 0) is an oracle (Approx); the thresholds |scale| > 1e-6 => Some and scale = 0 => None are exercised at Xq (binary64 parameters) and hold for any ulps_eq with ulps_eq 0 0 = true and not ulps_eq s 0 for |s| > 1e-6"],
              trusted=["rustc monomorphisation of the generic code at Xq"]),
-    "C09": P(9, axioms=R_AXIOMS,
+    "C09": P(9, axioms=R_AXIOMS, sym_heavy=[r"dec_q_look_at.*"],
              assumptions=["model (coq/Model/Rotation.v look_to/look_at constructors, Transform.v dec_look_at_*) is hand-written; tied to /repo by the exact-arithmetic correspondence of this run",
               "theorems are over the reals (sqrt of the standard library); hypotheses: d non-zero and d x up non-zero (up not parallel to d)",
               "Quaternion::look_at is by definition the conversion of Matrix3::look_to_lh (quat_of_m3); that the conversion preserves the rotation is C05 (for matrices of unit quaternions) and is "
